@@ -523,6 +523,23 @@ func init() {
 		st.assume(Eq(StrLen(r), IntLit(32)), "keccak length")
 		return r
 	})
+	const gcr = "github.com/ethereum/go-ethereum/crypto."
+	reg(gcr+"SigToPub", "(pubkey, err): err == nil iff recoverok(hash, sig); the key is identified with recoveraddr(hash, sig)", func(x *Exec, st *State, ci *callInfo, a []Val) Val {
+		x.e.declareFun("uf_recoverok", "(String String) Bool")
+		x.e.declareFun("uf_recoveraddr", "(String String) String")
+		ok := app(SBool, "uf_recoverok", tt(a[0]), tt(a[1]))
+		addr := app(SString, "uf_recoveraddr", tt(a[0]), tt(a[1]))
+		st.assume(Eq(StrLen(addr), IntLit(20)), "address length")
+		o := x.e.newObj(st, &OpaqueV{Tag: "pubkey", Data: map[string]Val{"addr": addr}})
+		return &TupleV{Vs: []Val{&PtrV{Nil: Not(ok), Obj: o}, &ErrV{IsNil: ok}}}
+	})
+	reg(gcr+"PubkeyToAddress", "the address of the recovered key", func(x *Exec, st *State, ci *callInfo, a []Val) Val {
+		if o, ok := a[0].(*OpaqueV); ok && o.Tag == "pubkey" {
+			return o.Data["addr"]
+		}
+		x.fail("PubkeyToAddress of %T", a[0])
+		return nil
+	})
 	reg("(github.com/ethereum/go-ethereum/common.Hash).Bytes", "the 32 bytes", func(x *Exec, st *State, ci *callInfo, a []Val) Val { return a[0] })
 
 	// ---- addresses -------------------------------------------------------------------------------------
